@@ -42,13 +42,13 @@ class HostileInterrupt(BaseException):
 
 
 def bounds(tier):
-    return {'programs': len(progs.names()) if tier == 'quick' else '%d corpus + grammar-generated (main <= 3 statements, callee <= 2, de-duplicated by event signature)' % len(progs.names()), 'kinds': KINDS, 'faults': 'every seam call of the rich configuration x {Exception, BaseException}' +
+    return {'programs': len(progs.names(only='C01')) if tier == 'quick' else '%d corpus + grammar-generated (main <= 3 statements, callee <= 2, de-duplicated by event signature)' % len(progs.names(only='C01')), 'kinds': KINDS, 'faults': 'every seam call of the rich configuration x {Exception, BaseException}' +
             ('' if tier == 'quick' else ' + all pairs')}
 
 
 def cases(tier, seed):
     out = []
-    for name in progs.names():
+    for name in progs.names(only='C01'):
         lo = progs.load(name)
         lines = progs.executable_lines(lo.code)
         fns = progs.function_names(lo.code)
